@@ -182,6 +182,20 @@ impl Sm9EncMasterKey {
     }
 }
 
+/// Verification hooks: wrappers of the module-private hash-to-range, KDF and MAC functions.
+#[cfg(gm_rs_verif)]
+pub fn verif_hash1(id: &[u8], hid: u8) -> U256 {
+    sm9_u256_hash1(id, hid)
+}
+#[cfg(gm_rs_verif)]
+pub fn verif_hash2(data: &[u8], wbuf: &[u8]) -> U256 {
+    sm9_u256_hash2(data, wbuf)
+}
+#[cfg(gm_rs_verif)]
+pub fn verif_kdf(z: &[u8], klen: usize) -> Vec<u8> {
+    kdf(z, klen)
+}
+
 const BLOCK_SIZE: usize = 64;
 
 fn sm3_hmac(key: &[u8], message: &[u8], klen: usize) -> Vec<u8> {
